@@ -467,7 +467,7 @@ impl Worksheet {
             return Err(format!("Can not set a negative width: {width}"));
         }
         let cols = &mut self.cols;
-        let mut col = Col {
+        let col = Col {
             min: column,
             max: column,
             width: width / constants::COLUMN_WIDTH_FACTOR,
